@@ -22,7 +22,7 @@ def obligations(tier):
         dict(name="multi_value", func="multi_value", timeout=T, bounds="ATTACKS/DISPLAYBPM value symbolic <=3 or None, the other from 5 representatives"),
         *[dict(name=f"chart_field[{i}]", func="chart_field", pre=f"i == {i}", timeout=T, bounds=f"chart field {i} symbolic <=2 stripped, 0..2 extra components <=2, 1..2 charts") for i in range(6)],
         dict(name="chart_attr_edit", func="chart_attr_edit", timeout=T, bounds="blank simfile + blank chart, one field set by attribute"),
-        *[dict(name=f"edit_step[op{i},k%2=={r}]", func="edit_step", pre=f"op == {i} and k % 2 == {r}", timeout=T, bounds=f"edit operation {i} from a small pre-state, symbolic key index (8 keys) and value <=3") for i in range(9) for r in range(2)],
+        *[dict(name=f"edit_step[op{i},k%2=={r}]", func="edit_step", pre=f"op == {i} and k % 2 == {r}", timeout=T, bounds=f"edit operation {i} (of 13: set/del by key, attribute, charts appended/removed/replaced/reversed, extra components assigned and edited in place, chart field by key) from a small pre-state that may already have been serialized once, symbolic key index (8 keys) and value <=3") for i in range(13) for r in range(2)],
         *[dict(name=f"autodetect[v{v},k%4=={r}]", func="autodetect", pre=f"v == {v} and k % 4 == {r}", timeout=T, bounds="first key symbolic index (not VERSION), concrete value incl. escapes, real tokenizer") for v in range(3) for r in range(4)],
         dict(name="blank_and_corpus", func="blank_and_corpus", timeout=T, bounds="SMSimfile.blank() and the SM corpus file"),
         *([dict(name="lexer_lemma[|v|<=1]", func="lexer_lemma", pre="len(v) <= 1", timeout=2 * T, bounds="dependency contract: str(MSDParameter(('K', v))) parses back to ('K', v) with the real serializer and lexer, any character outside the excluded gaps, |v| <= 1")]
